@@ -57,6 +57,7 @@ def vec_boundary(shapes, L, with_masks=True):
                 if cl:
                     add([setup(m, "r1", 10), "extend_from_slice r0 r1"], "extend_from_slice")
                     add([setup(m, "r1", 10), "extend_refs r0 r1"], "extend_refs")
+                    add([setup(m, "r1", 10), "extend_refs_f r0 r1"], "extend_refs")
             if cl:
                 for tv in TO_VEC:
                     add([f"{tv} r0 r1", "push r1 27", "pop r0"], "to_vec")
@@ -159,7 +160,8 @@ def vec_random(shapes, count, nops, seed, p_invalid=0.15, max_len=12):
             elif op in ("extend_from_slice", "extend_refs"):
                 q = (r + 1 + rng.randrange(2)) % 3
                 if lens[r] + lens[q] > max_len: continue
-                lines.append(f"{op} r{r} r{q}"); lens[r] += lens[q]
+                opn = "extend_refs_f" if op == "extend_refs" and rng.random() < 0.5 else op
+                lines.append(f"{opn} r{r} r{q}"); lens[r] += lens[q]
         out.append(Scenario(sh, lines, "random"))
     return out
 
@@ -544,7 +546,7 @@ def refs_scenarios(shapes, L):
                 for what in ("to_owned", "from", "from_ref", "mut_to_owned", "from_mut", "from_mut_ref"):
                     lines.append(f"refs r0 {what} {i}")
             if sh not in NOCLONE:
-                lines += ["extend_refs r1 r0", "len r1"]
+                lines += ["extend_refs r1 r0", "len r1", "extend_refs_f r1 r0", "len r1"]
             out.append(Scenario(sh, lines, "refs"))
             for i in range(n + 1):
                 out.append(Scenario(sh, [setup(n), f"refreplace r0 {i} 25", "len r0"] if i < n else [setup(n), "len r0"], "refreplace"))
